@@ -47,6 +47,8 @@ VAR0 = {"entry": "data",        # Reader(<data file>) | "meta": Reader(<metadata
                                 # its size (last byte differs) | 2 longer (complete file followed by more bytes)
         "linked": False,        # the data file the reader is pointed at is a symbolic link into a data store (another directory,
                                 # another name); its companions (.meta, .ch) are regular files next to the link
+        "outdir": False,        # decompress_file(out=<the .bin in another folder>): the model's "bin" is that file; the folder
+                                # holds a compressed pair of another recording under the same stem, which is nobody's to touch
         "here": False,          # decompress_to_scratch(scratch_dir=None): the copy goes next to the compressed file
         "prior": None}          # earlier call on the same Reader object: {"op", "keep", "fail_at", "between"}
 
@@ -55,7 +57,7 @@ def draw_var(vr, **fixed):
     v = dict(VAR0, entry=vr.choice(["data", "meta"]), pathtype=vr.choice(["path", "str", "path", "str", "rel"]),
              obj=vr.choice(["open", "open", "unopened", "closed"]), keeparg=vr.choice(["explicit", "default"]),
              scratchdir=vr.choice(["exists", "missing"]), siblings=vr.random() < 0.5, leftover=vr.randrange(3),
-             linked=vr.random() < 0.3)
+             linked=vr.random() < 0.3, outdir=vr.random() < 0.25)
     v.update(fixed)
     return v
 
@@ -115,15 +117,22 @@ class World:
                     "meta": d / f"{STEM}.meta", "cbin_tmp": d / f"{STEM}.cbin_tmp", "sbin": d / f"{STEM}.bin",
                     "stmp": d / f"{STEM}.bin_temp", "smeta": d / f"{STEM}.meta"}
         sd = d / "scr" / "scratch"
+        if getattr(self, "outdir", False):
+            return {"bin": d / "elsewhere" / f"{STEM}.bin", "cbin": d / f"{STEM}.cbin", "ch": d / f"{STEM}.ch", "meta": d / f"{STEM}.meta",
+                    "cbin_tmp": d / f"{STEM}.cbin_tmp", "sbin": sd / f"{STEM}.bin",
+                    "stmp": sd / f"{STEM}.bin_temp", "smeta": sd / f"{STEM}.meta"}
         return {"bin": d / f"{STEM}.bin", "cbin": d / f"{STEM}.cbin", "ch": d / f"{STEM}.ch", "meta": d / f"{STEM}.meta",
                 "cbin_tmp": d / f"{STEM}.cbin_tmp", "sbin": sd / f"{STEM}.bin",
                 "stmp": sd / f"{STEM}.bin_temp", "smeta": sd / f"{STEM}.meta"}
 
-    def setup(self, d, st, here=False, siblings=False, scratchdir="exists", leftover=0, linked=False):
+    def setup(self, d, st, here=False, siblings=False, scratchdir="exists", leftover=0, linked=False, outdir=False):
         d = Path(d)
         if d.exists():
             shutil.rmtree(d)
         d.mkdir(parents=True)
+        self.outdir = bool(outdir) and not here
+        if self.outdir:
+            (d / "elsewhere").mkdir()
         store = d.parent / (d.name + "_store")
         shutil.rmtree(store, ignore_errors=True)
         self.stored = {}
@@ -152,6 +161,13 @@ class World:
                 p[n].write_text(self.meta_text)
         if siblings:
             self.sibling(d, STEM.replace("imec0", "imec1"))
+        if self.outdir:
+            # the folder the decompressed file goes to holds the compressed pair of another recording under the same stem (a backup,
+            # another session): seed round i removed ITS header instead of the source's
+            for suf, content in ((".cbin", self.ref["S"]["cbin"]), (".ch", json.dumps(self.ref["S"]["ch"], indent=2, sort_keys=True).encode())):
+                f = d / "elsewhere" / f"{STEM}{suf}"
+                f.write_bytes(content)
+                self.stored[f] = content
         if linked:
             # the complete data files live in a store and are linked under the recording's names (seed round g: the reader
             # followed the link and looked for / published / removed files next to the target)
@@ -173,6 +189,8 @@ class World:
                 return f"removed:{tgt.name}"
             if tgt.read_bytes() != b:
                 return f"changed:{tgt.name}"
+        if getattr(self, "outdir", False):
+            return "ok"             # the output folder receives the decompressed file: only what was there is nobody's to touch
         extra = sorted(f.name for f in next(iter(self.stored)).parent.iterdir() if f not in self.stored)
         return "ok" if not extra else "added:" + ",".join(extra)
 
@@ -372,6 +390,8 @@ def invoke(sr, world, p, opname, keep, var):
     if opname == "compress":
         return sr.compress_file(**kk, **world.kw)
     if opname == "decompress":
+        if getattr(world, "outdir", False):
+            return sr.decompress_file(**kk, n_threads=1, out=p["bin"])
         return sr.decompress_file(**kk, n_threads=1)
     if var["here"]:
         return sr.decompress_to_scratch()
@@ -392,7 +412,7 @@ def _one_call(world, d, st, opname, keep, fail_at, var=None):
     if here and opname != "scratch":
         raise tlc.TLCError("scratch-here mapping is for decompress_to_scratch only")
     p = world.setup(d, st, here=here, siblings=var["siblings"], scratchdir=var["scratchdir"], leftover=var["leftover"],
-                    linked=var["linked"])
+                    linked=var["linked"], outdir=var["outdir"] and opname == "decompress" and st["bin"] == "A")
     rec = {"op": opname, "keep": bool(keep), "exc": "", "steps": [], "pre": st, "fail_at": fail_at, "ns": world.ns,
            "resolved": {"bin": "skip", "cbin": "skip", "meta": "skip"}, "reopen": "skip", "var": var}
     sr = None
@@ -579,6 +599,14 @@ def enumerate_faults(ctx, traces, world, d, st, opname, keep, mkvar):
             return fail_at
         traces.append(t)
         ctx.count(1, key=(world.ns, opname, keep, fail_at, json.dumps(st, sort_keys=True), varsig(var)))
+        if fail_at is None and opname == "decompress" and st.get("bin") == "A":
+            # the same call with the output sent to another folder (out=...), whatever the drawn variant says: every directory state
+            # and both values of keep_original meet it without a fault (faults with out= come from the drawn variants)
+            v2 = dict(var, outdir=True, here=False, prior=None)
+            t2 = one_call(world, d, st, opname, keep, None, v2)
+            if t2 is not None:
+                traces.append(t2)
+                ctx.count(1, key=(world.ns, opname, keep, None, json.dumps(st, sort_keys=True), varsig(v2)))
         fail_at = 0 if fail_at is None else fail_at + 1
         if fail_at > 40:
             raise tlc.TLCError("runaway fault enumeration")
